@@ -61,11 +61,11 @@ def fn_qual(lines, line):
     return ty, fn
 
 
-def fn_changed(lines, regions, line):
-    """does the function enclosing `line` contain tokens that differ from the pinned extraction?"""
+def fn_range(lines, line):
+    """(first, last) generated-file lines of the function enclosing `line`, or None"""
     fn, fl = vrun.enclosing_fn(lines, line)
     if not fl:
-        return False
+        return None
     ind = len(lines[fl - 1]) - len(lines[fl - 1].lstrip())
     end = fl
     while end < len(lines):
@@ -74,6 +74,34 @@ def fn_changed(lines, regions, line):
         if m and (len(l) - len(l.lstrip())) <= ind:
             break
         end += 1
+    return fl, end
+
+
+LOOP_HEAD = re.compile(r"^(\s*)((?:'\w+\s*:\s*)?(?:while|loop|for)\b)")
+
+
+def relax_loop_isolation(lines, ranges):
+    """Second proof attempt for functions whose code changed: the same text with `#[verifier::loop_isolation(false)]`
+    on every loop of those functions, so facts established before a loop (e.g. a hoisted `let last = end.sub(N)`) are
+    visible inside it without being restated in the invariant.  Only an attribute is added, on the same line, so line
+    numbers and regions stay valid; whatever this variant proves is a proof."""
+    out = list(lines)
+    n = 0
+    for (fl, end) in ranges:
+        for i in range(fl - 1, min(end, len(out))):
+            m = LOOP_HEAD.match(out[i])
+            if m and 'loop_isolation' not in out[i] and not (i > 0 and 'loop_isolation' in out[i - 1]):
+                out[i] = m.group(1) + '#[verifier::loop_isolation(false)] ' + out[i][len(m.group(1)):]
+                n += 1
+    return out, n
+
+
+def fn_changed(lines, regions, line):
+    """does the function enclosing `line` contain tokens that differ from the pinned extraction?"""
+    rg = fn_range(lines, line)
+    if not rg:
+        return False
+    fl, end = rg
     for ln in range(fl, end + 1):
         kind, name, tags, local = gen.locate(regions, ln)
         if 'new' in tags or 'del' in tags:
@@ -213,6 +241,43 @@ def decide_build(pid, spec, b, tier, oc, seed):
     if r.json is None:
         oc.undecided.append('verus produced no result for build %s (exit %s): %s' % (bname, r.returncode, r.raw_stderr[-400:]))
         return
+    if changed and a['errors'] and not a['hard_errors']:
+        # a function whose code changed fails an obligation: before reporting, try the one sound repair of the proof
+        # script that needs no new annotation (see relax_loop_isolation)
+        ranges = set()
+        for e in a['errors']:
+            rg = fn_range(lines, e['site_line'])
+            if rg and fn_changed(lines, regions, e['site_line']):
+                ranges.add(rg)
+        lines2, n_iso = relax_loop_isolation(lines, sorted(ranges)) if ranges else (lines, 0)
+        if n_iso:
+            text2 = '\n'.join(lines2)
+            path2 = os.path.join(WORK, '%s_%s_iso.rs' % (pid, bname))
+            open(path2, 'w').write(text2)
+            r2 = vrun.run_verus(path2, modules=mods, threads=int(os.environ.get('VERIF_THREADS', '4')), extra=xtra, rlimit=40)
+            a2 = vrun.analyse(text2, regions, r2)
+            if r2.json is not None and not a2['hard_errors']:
+                # per function: the relaxed functions are judged by the second run, every other function (whose text is
+                # identical in both files) by the first
+                inr = lambda ln: any(fl <= ln <= end for (fl, end) in ranges)
+                errs = [e for e in a['errors'] if not inr(e['site_line'])] + [e for e in a2['errors'] if inr(e['site_line'])]
+                if len(errs) < len(a['errors']):
+                    c1, c2 = os.path.basename(path)[:-3], os.path.basename(path2)[:-3]
+                    funcs = dict(a['functions'])
+                    for (fl, end) in ranges:
+                        ty, fn = fn_qual(lines, fl)
+                        part = gen.locate(regions, fl)[1]
+                        module = mod_of_part(part) if part in units.PARTS else None
+                        suffix = '::' + ((ty + '::') if ty else '') + (fn or '?')
+                        for k2, v2 in a2['functions'].items():
+                            k1 = c1 + k2[len(c2):]
+                            if k2.endswith(suffix) and module and ('::' + module + '::') in k2 and k1 in funcs:
+                                funcs[k1] = v2
+                    oc.notes.append('%s: %d obligation(s) of changed functions failed with isolated loops; second attempt with '
+                                    'loop_isolation(false) on %d loop(s) of those functions left %d'
+                                    % (bname, len(a['errors']), n_iso, len(errs)))
+                    a = dict(a, errors=errs, functions=funcs)
+                    oc.cmds.append(r2.cmd)
     sel = b['select']
     # ---- hard (compile / unsupported) errors: nothing was verified
     if a['hard_errors']:
@@ -266,14 +331,21 @@ def decide_build(pid, spec, b, tier, oc, seed):
             if k == ek and re.search(frx, e['qual'] or '') and re.search(crx, e['clause_text'] or '') \
                     and not re.search(r'forall|exists', e['clause_text'] or ''):
                 extra_ok = True
+        foreign = None
         if kinds and k not in kinds and not hint and not extra_ok:
-            # a failure kind that belongs to another property (e.g. arithmetic -> C14): not this property's business
-            oc.notes.append('ignored for %s (kind %s): %s::%s' % (pid, k, module, e['qual']))
-            continue
-        if spec.get('mem_only') and not hint and not ((k == 'precondition' and MEM_CLAUSE.search(e['clause_text'])) or
-                                                      (k in ('postcondition', 'invariant') and INV_CLAUSE.search(e['clause_text']))):
-            continue
-        if spec.get('non_mem') and k == 'precondition' and MEM_CLAUSE.search(e['clause_text']):
+            # a failure kind that belongs to another property (e.g. arithmetic -> C14)
+            foreign = 'kind %s' % k
+        elif spec.get('mem_only') and not hint and not ((k == 'precondition' and MEM_CLAUSE.search(e['clause_text'])) or
+                                                        (k in ('postcondition', 'invariant') and INV_CLAUSE.search(e['clause_text']))):
+            foreign = 'not a memory obligation'
+        elif spec.get('non_mem') and k == 'precondition' and MEM_CLAUSE.search(e['clause_text']):
+            foreign = 'memory obligation'
+        if foreign:
+            # not this property's obligation, so not its VIOLATION -- but the verifier assumes a failed obligation from
+            # there on, so this property's own obligations in that function are proved only conditionally: undecided
+            oc.undecided.append('%s: proof-script mismatch: an obligation of another property (%s) fails in %s::%s, so the '
+                                'obligations of %s there are discharged only under that assumption'
+                                % (bname, foreign, module, e['qual'], pid))
             continue
         code_level = k in ('postcondition', 'precondition', 'arithmetic', 'bounds', 'trait-contract', 'invariant', 'decreases') \
             or (k == 'assertion' and 'code' in e['site_tags']) or (k == 'recommends' and 'code' in e['site_tags'])
